@@ -186,6 +186,8 @@ func cmdCheck(args []string) int {
 	trace := fs.Bool("trace", false, "trace interpreted instructions")
 	noReplay := fs.Bool("no-replay", false, "do not replay counterexamples natively")
 	verbose := fs.Bool("v", false, "verbose")
+	cross := fs.Bool("cross", false, "re-decide every assertion query with the alternate solver (default in the thorough tier)")
+	noCross := fs.Bool("no-cross", false, "thorough tier without the solver cross-check")
 	qtimeout := fs.Int("qtimeout", 0, "per-query solver timeout in ms (default 60000 quick / 300000 thorough)")
 	if len(args) < 1 {
 		usage()
@@ -313,7 +315,7 @@ func cmdCheck(args []string) int {
 		ex := &interp.Explorer{
 			Eng: eng, Fn: fn, Name: h.Func, Params: params, Known: known,
 			Limits: interp.Limits{MaxPaths: maxPaths, MaxDepth: 4000, MaxSteps: 20_000_000, Unwind: unwind, MaxViolPerLb: 3,
-				Deadline: time.Now().Add(budget)},
+				Deadline: time.Now().Add(budget), CrossCheck: *cross || (*tier == "thorough" && !*noCross)},
 			Workers: *workers, Solver: hsolver, Timeout: timeout, FastTimeout: 3000,
 		}
 		hs := time.Now()
@@ -630,6 +632,8 @@ func writeEvidence(id, tier string, seed int, results []*harnessResult, pc *Prop
 			"queries": r.Stats.Queries, "sat": r.Stats.Sat, "unsat": r.Stats.Unsat, "unknown": r.Stats.Unknown,
 			"solver_s": r.Stats.Time.Seconds(), "max_query_s": r.Stats.MaxQuery.Seconds(), "wall_s": r.Wall,
 			"violations": len(r.Violations), "inconclusive": r.Incon, "discharged": ok, "notes": r.Notes,
+			"decided_by_alternate_solver": r.Stats.AltDecided,
+			"assertion_queries_cross_checked": r.Stats.CrossQueries, "cross_check_second_opinions": r.Stats.CrossDecided,
 		}
 		var kfs []string
 		for k := range r.KFSeen {
